@@ -381,6 +381,110 @@ def select(run, cases, n):
         chosen += rest[:n - len(chosen)]
     return chosen
 
+# ------------------------------------------------------------------ catch handlers with control flow, built and run
+# The product above observes the type-check verdict only (code generation is never reached for a rejected program, and
+# every mutation of a catch variable is rejected), so the back end never saw a catch handler containing control flow.
+# This stage builds and RUNS accepted programs whose handler contains if / if-else / while / match / guarded early
+# return, with and without the error binder, with a fallback value and as handler-only catch; inside the control
+# flow the handler mutates a MUTABLE outer variable (a control of the property: must stay accepted, and the mutation
+# must be visible afterwards) and reads the read-only error variable.
+
+CF_PRE = '''import "std/io";
+fn mayfail(a: i32) -> str ! i32 {
+    if a == 0 {
+        return "boom"!;
+    }
+    return a;
+}
+'''
+CF_BODIES = {
+    "if":     "if k > 0 { cnt = cnt + 1; }",
+    "ifelse": "if k > 1 { cnt = cnt + 10; } else { cnt = cnt + 20; }",
+    "while":  "let j := 0; while j < k { cnt = cnt + 1; j = j + 1; }",
+    "match":  "match k { 1 => { cnt = cnt + 5; } _ => { cnt = cnt + 6; } }",
+    "ret":    "if k > 5 { io::Println(cnt); return; } cnt = cnt + 2;",
+}
+
+def cf_apply(kind, k, cnt):
+    """python semantics of CF_BODIES: -> (cnt, returned, printed)"""
+    if kind == "if": return (cnt + 1 if k > 0 else cnt), False, []
+    if kind == "ifelse": return (cnt + 10 if k > 1 else cnt + 20), False, []
+    if kind == "while": return cnt + max(k, 0), False, []
+    if kind == "match": return (cnt + 5 if k == 1 else cnt + 6), False, []
+    if kind == "ret":
+        if k > 5: return cnt, True, [str(cnt)]
+        return cnt + 2, False, []
+    raise ValueError(kind)
+
+def cf_program(kind, binder, fallback, k):
+    """-> (source, expected stdout lines)"""
+    head = "catch e {" if binder else "catch {"
+    pre = "io::Println(e); " if binder else ""
+    body = pre + CF_BODIES[kind]
+    out = []
+    if fallback:
+        src = ("fn main() {\n    let k := %d;\n    let cnt := 0;\n"
+               "    let r := mayfail(0) %s\n        %s\n    } -1;\n    io::Println(r);\n    io::Println(cnt);\n"
+               "    let s := mayfail(5) %s\n        %s\n    } -1;\n    io::Println(s);\n    io::Println(cnt);\n}\n"
+               % (k, head, body, head, body))
+        if binder: out.append("boom")
+        cnt, ret, pr = cf_apply(kind, k, 0)
+        out += pr
+        if not ret:
+            out += ["-1", str(cnt), "5", str(cnt)]
+    else:
+        src = ("fn main() {\n    let k := %d;\n    let cnt := 0;\n"
+               "    mayfail(5) %s\n        %s\n        return;\n    };\n    io::Println(cnt);\n"
+               "    mayfail(0) %s\n        %s\n        io::Println(cnt);\n        return;\n    };\n    io::Println(99);\n}\n"
+               % (k, head, body, head, body))
+        out.append("0")
+        if binder: out.append("boom")
+        cnt, ret, pr = cf_apply(kind, k, 0)
+        out += pr
+        if not ret:
+            out.append(str(cnt))
+    return CF_PRE + src, out
+
+def catch_flow_stage(run, work):
+    thorough = run.tier == "thorough"
+    progs = []
+    for kind in sorted(CF_BODIES):
+        for binder in (True, False):
+            for fallback in (True, False):
+                ks = [0, 1, 2, 7] if thorough else [run.rng.choice([0, 1, 2, 7])]
+                if not thorough and not fallback and binder != (kind in ("if", "while", "ret")):
+                    continue            # quick: every shape with a fallback, handler-only with one binder choice
+                for k in ks:
+                    progs.append((kind, binder, fallback, k))
+    def one(a):
+        i, (kind, binder, fallback, k) = a
+        src, exp = cf_program(kind, binder, fallback, k)
+        r = common.compile_and_run(src, work, "cf%d" % i)
+        return src, exp, r
+    bad = 0
+    for (kind, binder, fallback, k), (src, exp, r) in zip(progs, common.pmap(one, list(enumerate(progs)), workers=4)):
+        name = "%s|%s|%s" % (kind, "binder" if binder else "nobinder", "fallback" if fallback else "handler-only")
+        run.case("catchflow|%s|k=%d" % (name, k), nontrivial=True)
+        run.count("catchflow:" + kind)
+        got = (r.get("out") or "").split() if r.get("accepted") and r.get("rc") == 0 else None
+        if got == exp:
+            continue
+        bad += 1
+        if not r.get("accepted"):
+            m = re.search(r"(predecessors not matched in phi[^\n]*|error[^\n]*)", common.strip_ansi(r.get("cerr", "") + r.get("cout", "")))
+            what = "valid program rejected at code generation (%s)" % (m.group(1)[:120] if m else "build failed")
+        else:
+            what = "wrong behaviour: printed %s rc=%s, expected %s" % (got if got is not None else r.get("out"), r.get("rc"), exp)
+        if bad > 4:
+            continue                # same stage, most likely the same root cause: counted in catch_flow_failures
+        run.violation("catchflow:" + name,
+                      "catch handler containing %s (%s, %s): %s" % (kind, "error binder" if binder else "no binder",
+                                                                    "fallback value" if fallback else "handler only", what),
+                      {"program": src, "expected_stdout": exp, "k": k, "native": {x: r.get(x) for x in ("accepted", "crc", "rc", "out", "err")},
+                       "compiler_output": common.strip_ansi(r.get("cerr", "") + r.get("cout", ""))[-1500:]})
+    run.extra["catch_flow_programs"] = len(progs)
+    run.extra["catch_flow_failures"] = bad
+
 # ------------------------------------------------------------------ main
 
 def coq_cases(cases, obs, shard):
@@ -456,6 +560,11 @@ def main(run):
         if cc != obs[i]:
             raise RuntimeError("batch hook and CLI disagree on %s: cli class=%d batch class=%d" % (case_key(cases[i]), cc, obs[i]))
     run.extra["cli_crosschecked"] = len(sample)
+
+    # ---- accepted programs with control flow inside catch handlers: build natively and run
+    t0 = time.time()
+    catch_flow_stage(run, work)
+    run.extra["t_catch_flow_s"] = round(time.time() - t0, 1)
 
     # ---- spec-side oracle on the implementation's verdict
     viol = []       # frozen target accepted
